@@ -22,6 +22,7 @@ NL = "\n"
 
 # site tags of the finding families (documented in checks/c09.py: FINDING_SITES)
 FAMILIES = ["config_spec", "block_config", "block_map_formal", "resolution_function", "two_libraries"]
+# (the block_config family also instantiates the configuration: site config_inst_formal)
 
 
 class Ent:
@@ -601,8 +602,9 @@ def gen_project(seed, idx, family=None):
            r(tb_sigs[2]), ", ", r(t_z), " => ", r(tb_sigs[3]), ");")
         if with_cfg:
             ln("  ", d(u3), " : configuration work.", r(CFG))
-            ln("    port map (", r(t_clk), " => ", r(tb_sigs[0]), ", ", r(t_x), " => ", r(tb_sigs[1]), ", ", r(t_y), " => open, ",
-               r(t_z), " => open);")
+            ci = "config_inst_formal"
+            ln("    port map (", r(t_clk, ci), " => ", r(tb_sigs[0]), ", ", r(t_x, ci), " => ", r(tb_sigs[1]), ", ", r(t_y, ci),
+               " => open, ", r(t_z, ci), " => open);")
         ln("end architecture ", e(SIM), ";")
 
     # ------------------------------------------------------------------ a file mapped to two libraries
